@@ -421,6 +421,101 @@ fn compof_leg(ctx: &mut Ctx, tier: Tier, seed: u64) {
     }
 }
 
+
+// ---------------------------------------------------------------------------------------
+// Instances of parameterized types: `R ::= [t] E {BOOLEAN}` with `E {T} ::= [u] BODY` is
+// `[t] [u] BODY[T := BOOLEAN]`. The reference is the same module with the instance written
+// out: when R's tag is applied implicitly it replaces the template's; when R has none the
+// template's is R's. (Not judged, counted: both tags present and R's applied explicitly - two
+// tags on one definition, which the bindings cannot carry.)
+
+const TI_TAGS: [(&str, u8); 6] = [("", 0), ("[APPLICATION 1] ", 0), ("[5] EXPLICIT ", 2), ("[PRIVATE 2] IMPLICIT ", 1), ("[2] ", 0), ("[APPLICATION 7] IMPLICIT ", 1)];
+const TI_BODIES: [(&str, &str); 3] = [
+    ("SEQUENCE { x T, y [1] INTEGER OPTIONAL }", "SEQUENCE { x BOOLEAN, y [1] INTEGER OPTIONAL }"),
+    ("SET { x [0] T, y [1] EXPLICIT BOOLEAN }", "SET { x [0] BOOLEAN, y [1] EXPLICIT BOOLEAN }"),
+    ("SEQUENCE { x [3] EXPLICIT T, z NULL }", "SEQUENCE { x [3] EXPLICIT BOOLEAN, z NULL }"),
+];
+
+fn ti_text(default: usize, te: usize, tr: usize, body: usize, cross: bool) -> Option<String> {
+    let (e_tag, _e_kw) = TI_TAGS[te];
+    let (r_tag, r_kw) = TI_TAGS[tr];
+    let (tb, wb) = TI_BODIES[body];
+    // what the instance is, written out
+    let explicit_default = default % 4 == 1;
+    let r_explicit = !r_tag.is_empty() && (r_kw == 2 || (r_kw == 0 && explicit_default));
+    let written = if r_tag.is_empty() {
+        format!("{e_tag}{wb}")
+    } else if e_tag.is_empty() || !r_explicit {
+        format!("{r_tag}{wb}")
+    } else {
+        return None;
+    };
+    let d = CO_DEFAULTS[default % 4];
+    Some(if cross {
+        format!("Ti-Lib DEFINITIONS {d} ::= BEGIN\nEnv {{T}} ::= {e_tag}{tb}\nEND\nTi-Use DEFINITIONS {d} ::= BEGIN\nIMPORTS Env{{}} FROM Ti-Lib;\nInst ::= {r_tag}Env {{BOOLEAN}}\nWritten ::= {written}\nEND\n")
+    } else {
+        format!("Ti-Use DEFINITIONS {d} ::= BEGIN\nEnv {{T}} ::= {e_tag}{tb}\nInst ::= {r_tag}Env {{BOOLEAN}}\nWritten ::= {written}\nEND\n")
+    })
+}
+
+fn ti_eval(text: &str) -> Result<Option<String>, String> {
+    let out = match comp::compile_rasn1(text, &Cfg::default()) {
+        Outcome::Ok(o) if o.warnings.is_empty() => o,
+        Outcome::Ok(o) => return Err(format!("warnings: {}", o.warnings[0])),
+        Outcome::Err(e) => return Err(e),
+        Outcome::Panic(p) => return Err(format!("panic: {p}")),
+    };
+    let mods = crate::proj::project(&out.generated)?;
+    let m = mods.iter().find(|m| m.find_struct("Written").is_some()).ok_or("Written not generated")?;
+    let w = m.find_struct("Written").unwrap();
+    let Some(i) = m.find_struct("Inst") else { return Ok(Some("the instance is not generated as a struct".into())) };
+    if i.attrs.tag != w.attrs.tag {
+        return Ok(Some(format!("the instance carries {:?}, the same type written out {:?}", i.attrs.tag, w.attrs.tag)));
+    }
+    if i.attrs.flags.contains("automatic_tags") != w.attrs.flags.contains("automatic_tags") {
+        return Ok(Some(format!("automatic_tags differs: instance {:?}, written out {:?}", i.attrs.flags, w.attrs.flags)));
+    }
+    for wf in &w.fields {
+        let Some(f) = i.fields.iter().find(|f| f.name == wf.name) else { return Ok(Some(format!("the instance lacks component {}", wf.name))) };
+        if f.attrs.tag != wf.attrs.tag {
+            return Ok(Some(format!("component {} carries {:?} in the instance and {:?} written out", wf.name, f.attrs.tag, wf.attrs.tag)));
+        }
+    }
+    Ok(None)
+}
+
+fn template_instance_leg(ctx: &mut Ctx) {
+    let mut reported = 0;
+    for default in 0..4 {
+        for te in 0..TI_TAGS.len() {
+            for tr in 0..TI_TAGS.len() {
+                for body in 0..TI_BODIES.len() {
+                    for cross in [false, true] {
+                        let Some(text) = ti_text(default, te, tr, body, cross) else {
+                            ctx.class("template-instance:not judged (two tags, the instance's applied explicitly)");
+                            continue;
+                        };
+                        match ti_eval(&text) {
+                            Err(_) => ctx.class("template-instance:skipped (rejected / warnings)"),
+                            Ok(res) => {
+                                ctx.case(&format!("ti:{text}"), true);
+                                ctx.class("leg:tagged-instances-of-tagged-templates");
+                                if let Some(d) = res {
+                                    ctx.class("fails:template-instance");
+                                    if reported < 3 {
+                                        reported += 1;
+                                        ctx.fail(Failure { finding: None, what: format!("instance of a parameterized type: {d}"), replay: json!({"kind": "c03-template-instance", "sources": [{"name": "ti.asn", "text": text}], "observed": d}) });
+                                    }
+                                }
+                            }
+                        }
+                    }
+                }
+            }
+        }
+    }
+}
+
 pub fn run(tier: Tier, seed: u64, replay: Option<String>) -> i32 {
     let mut ctx = Ctx::new("C03", tier, seed);
     ctx.max_replays = 12;
@@ -442,6 +537,19 @@ pub fn run(tier: Tier, seed: u64, replay: Option<String>) -> i32 {
     let grun = GenericRun { gcfg: gen_cfg(), n: tier.pick(30000, 300000), stream_len: 4000, salt: 3, shrink_budget: 300, max_violations: 4, eval: &e };
     if let Some(p) = &replay {
         let v: Value = serde_json::from_str(&std::fs::read_to_string(p).unwrap_or_default()).unwrap_or_default();
+        if v["kind"] == "c03-template-instance" {
+            let text = v["sources"][0]["text"].as_str().unwrap_or_default().to_string();
+            match ti_eval(&text) {
+                Err(e) => ctx.inconclusive.push(e),
+                Ok(res) => {
+                    ctx.case(&text, true);
+                    if let Some(d) = res {
+                        ctx.fail(Failure { finding: None, what: format!("instance of a parameterized type: {d}"), replay: v.clone() });
+                    }
+                }
+            }
+            return ctx.finish();
+        }
         if v["kind"] == "c03-compof" {
             if let Ok(c) = serde_json::from_value::<CompOf>(v["case"].clone()) {
                 match co_eval(&c) {
@@ -478,6 +586,7 @@ pub fn run(tier: Tier, seed: u64, replay: Option<String>) -> i32 {
     ctx.exhaustive = true;
     run_generic(&mut ctx, &grun, "c03");
     compof_leg(&mut ctx, tier, seed);
+    template_instance_leg(&mut ctx);
     let _: Option<Value> = None;
     ctx.finish()
 }
